@@ -22,7 +22,7 @@ if __name__ == "__main__":
     byround = collections.Counter()
     for r in rows:
         k = int(r[0].split("-m")[1])
-        rnd = 1 if k <= 3 else 2 if k <= 6 else 3
+        rnd = 1 if k <= 3 else 2 if k <= 6 else 3 if k <= 9 else 4
         byround[(rnd, r[2].split(" ")[0])] += 1
     print()
     for k in sorted(byround):
